@@ -68,8 +68,34 @@ func (c *Compiler) validateGrouping(
 		return fmt.Errorf("Grouping cycle detected in: grouping %s", g.Name())
 	}
 
+	// group_map holds the chain of groupings that led here: a grouping that
+	// is used twice along different chains is not a cycle.
 	group_map[g.Name()] = true
-	for _, u := range g.ChildrenByType(parse.NodeUses) {
+	defer delete(group_map, g.Name())
+
+	return c.validateUsesBelow(m, g, g, group_map)
+}
+
+// validateUsesBelow follows every uses statement in the body of grouping g,
+// at any depth: expanding g expands all of them.  Groupings defined inside
+// the body are only expanded where they are used.
+func (c *Compiler) validateUsesBelow(
+	m parse.Node,
+	g parse.Node,
+	scope parse.Node,
+	group_map map[string]bool) error {
+
+	for _, u := range scope.Children() {
+		switch u.Type() {
+		case parse.NodeGrouping:
+			continue
+		case parse.NodeUses:
+		default:
+			if err := c.validateUsesBelow(m, g, u, group_map); err != nil {
+				return err
+			}
+			continue
+		}
 		gname := u.ArgIdRef()
 		mod, err := u.GetModuleByPrefix(
 			gname.Space, c.modules, c.skipUnknown)
@@ -83,7 +109,7 @@ func (c *Compiler) validateGrouping(
 			continue
 		}
 
-		ug, ok := g.LookupGrouping(gname.Local)
+		ug, ok := scope.LookupGrouping(gname.Local)
 		if !ok {
 			return fmt.Errorf(
 				"Unknown grouping (grouping %s) referenced from grouping %s",
